@@ -116,6 +116,8 @@ class MasterDriver:
         # a real server lists children in no particular order
         self.srv.child_order, self.srv.order_salt = 'hash', str(rng.random())
         self.admin = self.srv.client('admin')
+        self.srv.on_op = self._between_operator_writes
+        self.interleaving = False
         self.node_clients = {}      # server -> client holding its presence node
         self.master = None
         self.mclient = None
@@ -310,8 +312,12 @@ class MasterDriver:
     def op_presence_down(self, name):
         cl = self.node_clients.pop(name, None)
         if cl is not None:
+            t_gone = self.clock.peek()
+            st = self.zkutils.get_default(self.admin, self.z.path.placement(name)) or {}
+            if st.get('state') != 'up':
+                t_gone = None       # it was not recorded up when it went: its down-since may lie earlier
             self.srv.expire(cl.sid)
-            self.lost[name] = dict(t_lo=None, t_hi=None, step=self.step_no)     # window filled in when the master is told
+            self.lost[name] = dict(t_lo=None, t_hi=None, step=self.step_no, t_gone=t_gone)     # window filled in when the master is told
         self.ops.append(('presence_down', name))
 
     def op_presence_up(self, name):
@@ -842,6 +848,21 @@ class MasterDriver:
         for n in names or []:
             b |= TRAIT_BIT[n] if n in TRAIT_BIT and n in self.known_traits else 1
         return b
+
+    def _between_operator_writes(self, client, op, path):
+        """An operator command is several ZooKeeper requests; the master's watches may fire between any two of them.
+        Now and then the master handles what is pending right before the next write of the operator."""
+        if (client is not self.admin or op not in ('create', 'set', 'delete') or self.master is None or self.interleaving
+                or self.cutter is not None and getattr(self.cutter, 'armed', False)):
+            return
+        if self.rng.random() >= 0.06:
+            return
+        self.interleaving = True
+        try:
+            if self.deliver():
+                self.mon.count('deliveries_between_operator_writes')
+        finally:
+            self.interleaving = False
 
     def snapshot_model(self):
         cell = self.master.cell
